@@ -44,10 +44,13 @@ type Decls struct {
 	usesQuant bool
 	heapSorts map[string]string
 	trackReads map[string]readDep // when non-nil, heap reads are recorded (for opaque spec functions)
+	intComps  map[string][2]string // integer-valued components (int mode): the Go type's value range
+	intKind   map[string]string
+	refComps  map[string]string  // components whose values are references: "field" or "mem" (heap closure: stored references are allocated)
 }
 
 func newDecls(mode Mode) *Decls {
-	d := &Decls{mode: mode, declared: map[string]bool{}, structs: map[string]*types.Struct{}, heapSorts: map[string]string{}}
+	d := &Decls{mode: mode, declared: map[string]bool{}, structs: map[string]*types.Struct{}, heapSorts: map[string]string{}, refComps: map[string]string{}, intComps: map[string][2]string{}, intKind: map[string]string{}}
 	idx := d.idxSort()
 	d.lines = append(d.lines,
 		"(declare-sort Str 0)",
@@ -434,4 +437,54 @@ func arrayRange(s string) string {
 		return s
 	}
 	return p.kids[2].String()
+}
+
+// isRefLike: values of the type are references into the heap model (Int refs bounded by the allocation counter).
+func isRefLike(t types.Type) bool {
+	switch t.Underlying().(type) {
+	case *types.Pointer, *types.Interface, *types.Map, *types.Chan, *types.Signature:
+		return true
+	}
+	return false
+}
+
+// closureFact: every reference stored in a fresh version of a reference-valued component is
+// allocated (0 <= r <= alloc). Holds of any reachable Go heap; stores of allocated references
+// preserve it by array reasoning, so it is only stated for fresh (initial / havocked) versions.
+func (d *Decls) closureFact(comp, arr, alloc string) string {
+	if rng, ok := d.intComps[comp]; ok {
+		// integer-valued component: stored values are within the Go type's range
+		d.usesQuant = true
+		if d.intKind[comp] == "mem" {
+			return fmt.Sprintf("(forall ((qo Int) (qx %s)) (! (and (<= %s (select (select %s qo) qx)) (<= (select (select %s qo) qx) %s)) :pattern ((select (select %s qo) qx))))", d.idxSort(), rng[0], arr, arr, rng[1], arr)
+		}
+		return fmt.Sprintf("(forall ((qo Int)) (! (and (<= %s (select %s qo)) (<= (select %s qo) %s)) :pattern ((select %s qo))))", rng[0], arr, arr, rng[1], arr)
+	}
+	switch d.refComps[comp] {
+	case "field":
+		d.usesQuant = true
+		return fmt.Sprintf("(forall ((qo Int)) (! (and (<= 0 (select %s qo)) (<= (select %s qo) %s)) :pattern ((select %s qo))))", arr, arr, alloc, arr)
+	case "mem":
+		d.usesQuant = true
+		return fmt.Sprintf("(forall ((qo Int) (qx %s)) (! (and (<= 0 (select (select %s qo) qx)) (<= (select (select %s qo) qx) %s)) :pattern ((select (select %s qo) qx))))", d.idxSort(), arr, arr, alloc, arr)
+	}
+	return ""
+}
+
+// noteIntComp records the value range of an integer-typed component (int mode only).
+func (d *Decls) noteIntComp(comp, kind string, t types.Type) {
+	if d.mode != ModeInt {
+		return
+	}
+	b, ok := t.Underlying().(*types.Basic)
+	if !ok || b.Info()&types.IsInteger == 0 {
+		return
+	}
+	bits, signed, ok := intInfo(t)
+	if !ok {
+		return
+	}
+	lo, hi := intRange(bits, signed)
+	d.intComps[comp] = [2]string{d.intLit(lo, t), d.intLit(hi, t)}
+	d.intKind[comp] = kind
 }
